@@ -66,6 +66,16 @@ def run(ctx):
             ctx.count("E2_constraints", "unsolved"); continue
         sol = m.get_solution(); routes = sol[zoo.routes_key(name)]
         rep["solution"] = routes
+        # (0) the class's own validity check accepts the solution it returned (decomposition / cover classes; the error
+        #     classes' check is exercised by C07/C08)
+        if name not in zoo.ERR and hasattr(m, "is_valid_solution"):
+            try:
+                okv = m.is_valid_solution()
+            except Exception as e:
+                okv = repr(e)
+            ctx.count("E2_is_valid_solution", "calls")
+            if okv is not True:
+                ctx.report(f"{name}: solved, but is_valid_solution() on the returned solution gives {okv}", rep); continue
         # (1) constraint coverage in one route
         if info["cons"]:
             cons_e = info["cons"]
